@@ -421,6 +421,22 @@ def client_case(rng, stats, length, pid):
                 if depth >= 5:
                     feed(ps.msg(20, sid, cmd_body("onStatus", 0.0, ("z",), [obj(level=s("status"), code=s("NetStream.Play.Start" if kind == "play" else "NetStream.Publish.Start"), description=s("d"))])))
                     sim.state = "playing" if kind == "play" else "publishing"
+        if depth >= 2 and rng.chance(1, 4):
+            # a stray status that answers no request of this session (refused as a state error): the session must be
+            # exactly where it was - the calls its phase allows are still accepted, the others still refused
+            code = rng.choice(["NetStream.Play.Start", "NetStream.Publish.Start"])
+            if depth >= 5 and rng.chance(2, 3):
+                code = "NetStream.Publish.Start" if sim.state == "playing" else "NetStream.Play.Start"
+            feed(ps.msg(20, sim.active or 0, cmd_body("onStatus", 0.0, ("z",), [obj(level=s("status"), code=s(code), description=s("d"))])))
+            for _ in range(rng.range(1, 3)):
+                k = rng.below(5)
+                if k == 0: ops.append(f"cli.media {rng.choice('av')} {rng.below(1000)} 0 {hexb(rng.bytes(5))}")
+                elif k == 1: ops.append(f"cli.meta {rand_now(rng, st)} {meta_text(rng)}")
+                elif k == 2: ops.append(f"cli.play {rand_now(rng, st)} {hexb(b'key2')}")
+                elif k == 3: ops.append(f"cli.publish {rand_now(rng, st)} {hexb(b'key2')} live")
+                else: ops.append(f"cli.connect {rand_now(rng, st)} {hexb(b'live')}")
+            bump(stats, "cli_stray_status_then_calls")
+            length = 0      # the walk's bookkeeping (sim) does not follow these calls: end the case here
         bump(stats, f"cli_warm_depth_{depth}")
 
     for _ in range(length):
